@@ -29,7 +29,7 @@ class TreeSpec(Spec):
         "distinct = distinct plan digest; non-trivial = executed >= 1 trade and >= 2 ticks"
     )
     assumptions = TREE_ASSUME
-    tiers = {"quick": dict(runs=8000, builds=("py",), wall=75), "thorough": dict(runs=150000, builds=("py", "cy"), wall=1500)}
+    tiers = {"quick": dict(runs=12000, builds=("py",), wall=75), "thorough": dict(runs=150000, builds=("py", "cy"), wall=1500)}
 
     engine_every = 0  # every n-th run is a real Backtest.run of a stock-algo stack (engine driver)
 
@@ -430,7 +430,7 @@ def _last_complete(sim, exc):
 @register
 class C04(Spec):
     id = "C04"
-    tiers = {"quick": dict(runs=1100, builds=("py",), wall=80), "thorough": dict(runs=30000, builds=("py", "cy"), wall=1500)}
+    tiers = {"quick": dict(runs=1600, builds=("py",), wall=80), "thorough": dict(runs=30000, builds=("py", "cy"), wall=1500)}
     rule = (
         "seeded strategy assembled from every stock scheduling / selection / statistic / weighting / rebalancing algo (nested trees, bid/offer, signal / target-weight / stat frames) is run by the real Backtest; "
         "fault future_corruption: for 4 seeded cut dates every supplied value dated after the cut is scaled / re-drawn / set NaN / zero (index unchanged) and the run repeated; all node histories and transactions up to the cut must be byte-identical; "
@@ -525,7 +525,7 @@ def _nondeterministic(stack):
 @register
 class C09(Spec):
     id = "C09"
-    tiers = {"quick": dict(runs=1500, builds=("py",), wall=80), "thorough": dict(runs=40000, builds=("py", "cy"), wall=1500)}
+    tiers = {"quick": dict(runs=4000, builds=("py",), wall=80), "thorough": dict(runs=40000, builds=("py", "cy"), wall=1500)}
     rule = (
         "seeded calendar-gated deterministic child definition is backtested (i) stand-alone with default settings and (ii) nested under a seeded parent whose allocation schedule is the fault axis "
         "(never funded, late funding, tiny funding, withdrawals, weight flips, parent flows, chaos algos); child.prices (nested) must equal strategy.prices (stand-alone) byte for byte on every date, and the column the parent "
@@ -1036,7 +1036,7 @@ class C16(TreeSpec):
     id = "C16"
     judged = ("C16",)
     own_checks = ("bankrupt_missed", "bankrupt_spurious", "bankrupt_sub", "bankrupt_fi", "bankrupt_residual", "bankrupt_algos_ran", "bankrupt_positions_after", "bankrupt_not_constant", "ledger_value", "ledger_pos", "ledger_cash")
-    tiers = {"quick": dict(runs=5000, builds=("py",), wall=75), "thorough": dict(runs=120000, builds=("py", "cy"), wall=1500)}
+    tiers = {"quick": dict(runs=12000, builds=("py",), wall=75), "thorough": dict(runs=120000, builds=("py", "cy"), wall=1500)}
     rule = (
         "leveraged / short portfolios (flat and nested, positions held by grandchildren) meet a seeded price shock sized to push equity through, onto or just above zero on any date, with recovery afterwards; tree-driver runs add arbitrary op histories with leverage; "
         "the flag is judged at every root update against the reference model's equity (must be set below -tol, must not be set above +tol, band inconclusive), all positions of the whole tree must be zero right after the liquidating update, the ledger must still reconcile "
@@ -1071,7 +1071,7 @@ class C16(TreeSpec):
 @register
 class C06(Spec):
     id = "C06"
-    tiers = {"quick": dict(runs=3000, builds=("py",), wall=75), "thorough": dict(runs=80000, builds=("py", "cy"), wall=1500)}
+    tiers = {"quick": dict(runs=8000, builds=("py",), wall=75), "thorough": dict(runs=80000, builds=("py", "cy"), wall=1500)}
     rule = (
         "real Backtest.run()s in which Rebalance / RebalanceOverTime sit behind an oracle wrapper and are fed plan-controlled target vectors (long, short, sum <= 1, targets appearing and disappearing, sub-strategy targets funded / unfunded / invested, "
         "optional temp['cash']) on successive dates of moving prices, so that every rebalance starts from a drifted non-flat portfolio; at the algo's return every target is worth (1-c)*w*base exactly (fractional, costless) or within one unit plus costs, "
@@ -1108,7 +1108,7 @@ class C17(TreeSpec):
     judged = ("C17",)
     own_checks = ("notional", "weight_fi", "index_fi", "rows_notional_value", "rows_coupon", "rows_holding_cost", "rows_cash", "rows_value", "ledger_cash", "ledger_value", "ledger_pos", "cash_ledger", "conservation", "bankrupt_fi",
                   "c17_notional_target", "c17_not_closed", "c17_target_missing", "c17_renormalized")
-    tiers = {"quick": dict(runs=5000, builds=("py",), wall=75), "thorough": dict(runs=120000, builds=("py", "cy"), wall=1500)}
+    tiers = {"quick": dict(runs=8000, builds=("py",), wall=75), "thorough": dict(runs=120000, builds=("py", "cy"), wall=1500)}
     rule = (
         "fixed-income trees with all five security types, multipliers, irregular / zero coupon schedules and asymmetric long/short holding costs: op-level runs (transact / rebalance-with-base / close / flatten / spread, duplicate ticks, intraday re-trades) against the reference ledger "
         "(notional per type, weights = notional fractions, carry accrued on the end-of-day position and swept into the parent's cash on the next date exactly once, additive index on previous notional) and real Backtest runs where SetNotional + Rebalance sit behind an oracle wrapper "
@@ -1143,7 +1143,7 @@ class C17(TreeSpec):
 @register
 class C12(Spec):
     id = "C12"
-    tiers = {"quick": dict(runs=2500, builds=("py",), wall=75), "thorough": dict(runs=80000, builds=("py",), wall=1200)}
+    tiers = {"quick": dict(runs=8000, builds=("py",), wall=75), "thorough": dict(runs=80000, builds=("py",), wall=1200)}
     rule = (
         "the simulator owns the clock: seeded date indices (business days, calendar gaps from a weekend to months, intraday stamps, starts just before year / quarter / ISO-week-52/53/1 / leap-day boundaries, sparse) are fed to real Backtest.run()s whose root and sub-strategy stacks hold "
         "4-8 probes, each wrapping one scheduler with seeded flags / n / offset / dates, some invoked twice per date; every boolean returned on every date is compared with a reference calendar written from the statement (datetime / isocalendar only); "
@@ -1411,7 +1411,7 @@ def _eager_twin(tree):
 @register
 class C19(Spec):
     id = "C19"
-    tiers = {"quick": dict(runs=1500, builds=("py",), wall=75), "thorough": dict(runs=40000, builds=("py", "cy"), wall=1200)}
+    tiers = {"quick": dict(runs=3000, builds=("py",), wall=75), "thorough": dict(runs=40000, builds=("py", "cy"), wall=1200)}
     rule = (
         "seeded trees are assembled through every constructor path (lists, dicts, strings, lazy objects, nested strategies, parent=), checked structurally, then run by the real Backtest with stock-algo stacks; the fault is lazy_child: a twin run "
         "differs only in that every string / lazy child is constructed up front; node histories must agree to 1e-10 relative (absent node == flat zero rows), a spy at the head of every live stack checks universe.columns == declared tickers (all if none) + one column per sub-strategy, "
@@ -1440,6 +1440,10 @@ class C19(Spec):
         plan["cfg"]["obs_eod"] = False
         if plan["cfg"].get("comm") is None and r.random() < 0.5:
             plan["cfg"]["comm"] = {"kind": "prop", "rate": 0.001}
+        if plan["cfg"].get("comm") and plan["cfg"]["comm"]["kind"] in ("fixed", "pershare"):
+            # a fee that is non-zero at size 0 turns an ulp of summation-order noise in a rebalancing delta (exactly 0 in one
+            # twin) into a real fee-funding trade: use cost models that are continuous at zero for the twin comparison
+            plan["cfg"]["comm"] = {"kind": "tiered", "r1": 0.002, "r2": 0.0005, "thr": 1e4}
         plan["seed"] = r.randrange(1 << 30)
         return plan
 
@@ -1576,7 +1580,7 @@ class C19(Spec):
 @register
 class C18(Spec):
     id = "C18"
-    tiers = {"quick": dict(runs=1200, builds=("py",), wall=80), "thorough": dict(runs=30000, builds=("py", "cy"), wall=1200)}
+    tiers = {"quick": dict(runs=3000, builds=("py",), wall=80), "thorough": dict(runs=30000, builds=("py", "cy"), wall=1200)}
     rule = (
         "finished real backtests of every shape (flat / nested, tickers shared by several sub-strategies, runs without trades, shorts, bid/offer on or off, flows) - every report (weights, security_weights + cash fractions, positions, transactions, turnover, Herfindahl, Result.prices) is recomputed from the node histories; "
         "costless runs are additionally replayed: get_transactions() is fed to ReplayTransactions on the same feed and positions / values must come back; distinct = plan digest; non-trivial = the run traded"
@@ -1652,7 +1656,7 @@ class C18(Spec):
 @register
 class C20(Spec):
     id = "C20"
-    tiers = {"quick": dict(runs=2000, builds=("py",), wall=75), "thorough": dict(runs=60000, builds=("py", "cy"), wall=1200)}
+    tiers = {"quick": dict(runs=5000, builds=("py",), wall=75), "thorough": dict(runs=60000, builds=("py", "cy"), wall=1200)}
     rule = (
         "fixed-income trees (nested, multipliers != 1) with seeded unit-risk tables (missing securities, 1-3 measures), UpdateRisk(history=d), HedgeRisks (square / pseudo-inverse) and close / roll tables whose dates are timers on the simulated clock "
         "(calendar gaps so that the date falls between ticks, prices absent after maturity); spies placed after the algos compare node.risk / node.risks with unit x position x multiplier summed over the tree, hedged measures with zero (least-squares normal equations for pseudo), "
@@ -1940,7 +1944,7 @@ class C20(Spec):
 @register
 class C14(Spec):
     id = "C14"
-    tiers = {"quick": dict(runs=1500, builds=("py",), wall=75), "thorough": dict(runs=50000, builds=("py",), wall=1200)}
+    tiers = {"quick": dict(runs=3000, builds=("py",), wall=75), "thorough": dict(runs=50000, builds=("py",), wall=1200)}
     rule = (
         "every selection algo sits behind the oracle wrapper in a real Backtest.run over feeds with NaN / zero / negative ticks, late listings and delistings at and around now; each date the stack evaluates 4-8 branches, each with its own prior temp['selected'] (absent, subset, with an outsider), seeded parameters "
         "(n absolute / fractional, ascending, all_or_none, filter_selected, include_no_data / include_negative, lookback, lag, min_count), seeded signal / stat / on-the-run frames and the global PRNG; references of 3-10 lines are evaluated on the same universe window; ties in ranked selection are left open; "
